@@ -926,7 +926,8 @@ func (p *parser) lowerNullishCoalescingAssignmentOperator(loc logger.Loc, e *js_
 		}}), true
 	}
 
-	if p.options.unsupportedJSFeatures.Has(compat.LogicalAssignment) {
+	// Note: "super.a ??= b" inside a lowered async function must always be lowered
+	if p.options.unsupportedJSFeatures.Has(compat.LogicalAssignment) || p.extractSuperProperty(e.Left).Data != nil {
 		return p.lowerAssignmentOperator(e.Left, func(a js_ast.Expr, b js_ast.Expr) js_ast.Expr {
 			if p.options.unsupportedJSFeatures.Has(compat.NullishCoalescing) {
 				// "a ??= b" => "(_a = a) != null ? _a : a = b"
@@ -957,7 +958,8 @@ func (p *parser) lowerLogicalAssignmentOperator(loc logger.Loc, e *js_ast.EBinar
 		}}), true
 	}
 
-	if p.options.unsupportedJSFeatures.Has(compat.LogicalAssignment) {
+	// Note: "super.a ??= b" inside a lowered async function must always be lowered
+	if p.options.unsupportedJSFeatures.Has(compat.LogicalAssignment) || p.extractSuperProperty(e.Left).Data != nil {
 		return p.lowerAssignmentOperator(e.Left, func(a js_ast.Expr, b js_ast.Expr) js_ast.Expr {
 			// "a &&= b" => "a && (a = b)"
 			// "a ||= b" => "a || (a = b)"
